@@ -118,9 +118,20 @@ def build_harness(p, rundir, variant=None):
     extra = []
     if any("engine.cpp" in s for s in srcs):
         extra.append("-lrapidcheck")
-    extra += ["-lpthread"]
+    extra += ["-lpthread", "-lutil"]
     link(hobjs + libobjs, out, variant, extra)
     log("[build] %s (%s) in %.1fs" % (os.path.basename(out), variant, time.time() - t0))
+    return out
+
+
+def build_econftool(rundir):
+    """econftool from /repo/util/econftool.c + the ASan library objects"""
+    libdir = os.path.join(rundir, "lib-asan")
+    libobjs = sorted(glob.glob(os.path.join(libdir, "*.o"))) or build_lib("asan", libdir)
+    cflags, lflags = VARIANTS["asan"]
+    out = os.path.join(rundir, "econftool")
+    run_cmd([CC] + cflags + LIBDEFS + ["-I", os.path.join(REPO, "include"), os.path.join(REPO, "util", "econftool.c")] +
+            libobjs + lflags + ["-o", out])
     return out
 
 
@@ -438,6 +449,8 @@ def run_check(pid, tier, seed):
             import custom
             return getattr(custom, p["custom"])(sys.modules[__name__], pid, p, tier, seed, rundir, sdir, env, t0)
         binary = build_harness(p, rundir)
+        if p.get("econftool"):
+            env["VF_ECONFTOOL"] = build_econftool(rundir)
         cfg = p[tier]
         extra_args = p.get("args", [])
         # --- replay tier: committed regression cases first
@@ -700,6 +713,8 @@ def run_replay(pid, case):
                     return 1
                 return 0
         binary = build_harness(p, rundir)
+        if p.get("econftool"):
+            env["VF_ECONFTOOL"] = build_econftool(rundir)
         rc, out = replay_once(binary, os.path.abspath(case), env, extra_args=p.get("args", []))
         print(out)
         if rc != 0:
